@@ -418,7 +418,9 @@ impl<'a> Oracle<'a> {
                 return fail("C01", format!("stored value of {k} is {:?}, expected {:?}", a.value, e.value));
             }
             if !self.birth_ok(e.birth, a.birth) {
-                let w = if e.birth == Birth::Fresh { "is not fresh" } else { "changed" };
+                // an entry that was just (re-)stored must carry a fresh birth time: besides the TTL rule this breaks the
+                // "a refresh replaces the entry" properties (C11, C20) -- marked for the --prop filter
+                let w = if e.birth == Birth::Fresh { "is not fresh [stale refresh]" } else { "changed" };
                 return fail("C06", format!("birth time of {k} {w}: {:?}, expected {:?}", a.birth, e.birth));
             }
             if a.hits != e.hits {
@@ -1165,7 +1167,9 @@ fn run_config(eng: &dyn Engine, cfg: &Config, seed: u64, iters: usize, max_ops: 
             }
             Some(v)
                 if PROP_FILTER.get().map_or(false, |p| {
-                    p != v.prop && !(v.what.contains("[lost entry]") && ["C01", "C03", "C09", "C10", "C11"].contains(&p.as_str()))
+                    p != v.prop
+                        && !(v.what.contains("[lost entry]") && ["C01", "C03", "C09", "C10", "C11"].contains(&p.as_str()))
+                        && !(v.what.contains("[stale refresh]") && ["C11", "C20"].contains(&p.as_str()))
                 }) =>
             {
                 res.ops += v.step as u64;
